@@ -276,6 +276,137 @@ theorem pipefail_rule (pf : Bool) (sts : List Nat) : pipeStatus pf sts = Spec.pi
 example : pipeStatus true [3, 0, 7, 0] = 7 ∧ pipeStatus false [3, 0, 7, 0] = 0 ∧ pipeStatus true [0, 0] = 0 := by
   decide
 
+/-- `wait_progress` from ANY state that satisfies the invariant (not only from reachable ones): a final
+    state can be reached, and a state reached without an enabled step is final. -/
+theorem wait_progress_inv {s : Sys} (hi : Inv s) :
+    (∃ t, Steps s t ∧ t.final = true) ∧
+    (∀ t, Steps s t → (∀ l, step t l = none) → t.final = true) := by
+  constructor
+  · have key : ∀ n (u : Sys), measure u ≤ n → Inv u → ∃ t, Steps u t ∧ t.final = true := by
+      intro n
+      induction n with
+      | zero =>
+        intro u hm hu
+        cases hfin : u.final with
+        | true => exact ⟨u, .refl u, hfin⟩
+        | false =>
+          obtain ⟨l, u', hs⟩ := not_stuck hu hfin
+          have := measure_step l hs; omega
+      | succ n ih =>
+        intro u hm hu
+        cases hfin : u.final with
+        | true => exact ⟨u, .refl u, hfin⟩
+        | false =>
+          obtain ⟨l, u', hs⟩ := not_stuck hu hfin
+          have hlt := measure_step l hs
+          obtain ⟨t, ht, hft⟩ := ih u' (by omega) (inv_step' l hu hs)
+          exact ⟨t, Steps.head l hs ht, hft⟩
+    exact key _ s (Nat.le_refl _) hi
+  · intro t ht hstuck
+    cases hfin : t.final with
+    | true => rfl
+    | false =>
+      obtain ⟨l, t', hs⟩ := not_stuck (inv_steps ht hi) hfin
+      rw [hstuck l] at hs; simp at hs
+
+/-- ★ `pending_signal_at_entry_terminates_and_notifies_parent`.  A child that has not ended is sent a fatal
+    signal `sig` which it still has blocked (it inherited the mask of a parent that traps `sig`): the signal
+    is pending, and the child's next step — its entry step, which resets the trap and unblocks the signal
+    (`sigmask` → `block_signals` → `deliver_pending_signals`) — is its death.  In the model: the child's
+    fate becomes `signaled sig` (`s1`).  Then, in any state `s` satisfying the invariant and whatever the
+    parent is doing: the invariant still holds; the child's next step exists, leaves it terminated by
+    `sig` with an unreported state change, and SIGCHLD is raised on the PARENT (pending, if the parent has
+    its handler installed — which it has whenever it polls or blocks); the invariant holds afterwards, so
+    (`wait_progress_inv`) every schedule from there ends with the parent done — no lost wake-up, no
+    deadlock; and whatever `wait` hands out for this child is `signaled sig`, reported as 384 + `sig`. -/
+theorem pending_signal_at_entry_terminates_and_notifies_parent {s : Sys} (hi : Inv s) {i f : Nat}
+    {fin : Result} (sig : Nat) (hc : s.children[i]? = some { state := .running f fin, changed := false }) :
+    let s1 : Sys := { s with children := s.children.set i { state := .running 0 (.signaled sig) } }
+    Inv s1 ∧
+    ∃ s2, childStep s1 i = some s2 ∧
+      s2.children[i]? = some { state := .halted (.signaled sig), changed := true } ∧
+      (s.disp = .catch → s2.pending = true) ∧
+      Inv s2 ∧
+      ((∃ t, Steps s2 t ∧ t.final = true) ∧ (∀ t, Steps s2 t → (∀ l, step t l = none) → t.final = true)) ∧
+      (∀ t, Steps s2 t → ∀ r, (i, r) ∈ t.log → r = .signaled sig ∧ waitStatus (.got i r) = sig + 384) := by
+  intro s1
+  have hnolog : ∀ r, (i, r) ∉ s.log := by
+    intro r hm
+    obtain ⟨c, h1, h2⟩ := hi.logged i r hm
+    rw [hc] at h1; simp at h1; subst h1; simp at h2
+  have hs1 : Inv s1 := by
+    refine ⟨?_, hi.handler, ?_, ?_, ?_, ?_⟩
+    · intro j c hj hch
+      simp only [s1, set_get hc] at hj
+      by_cases hji : j = i
+      · simp [hji] at hj; subst hj; simp at hch
+      · simp [hji] at hj; exact hi.changed_halted j c hj hch
+    · intro hpc j c hj hm hch
+      simp only [s1, set_get hc] at hj
+      by_cases hji : j = i
+      · simp [hji] at hj; subst hj; simp at hch
+      · simp [hji] at hj; exact hi.no_lost hpc j c hj hm hch
+    · intro hpc
+      obtain ⟨j, c, hj, hm, hor⟩ := hi.awaited hpc
+      by_cases hji : j = i
+      · subst hji
+        exact ⟨j, { state := .running 0 (.signaled sig) }, by simp [s1, set_get hc], hm,
+          Or.inl (by simp [PState.isAlive])⟩
+      · exact ⟨j, c, by simp [s1, set_get hc, hji, hj], hm, hor⟩
+    · intro j
+      by_cases hji : j = i
+      · subst hji
+        have := hi.once j
+        rw [reaped_self hc] at this
+        simp only [s1]
+        rw [reaped_set_self hc]
+        simpa [PState.isAlive] using this
+      · simp only [s1]; rw [reaped_set_other hc hji]; exact hi.once j
+    · intro j r hm
+      by_cases hji : j = i
+      · subst hji; exact absurd hm (hnolog r)
+      · obtain ⟨c, h1, h2⟩ := hi.logged j r hm
+        exact ⟨c, by simp [s1, set_get hc, hji, h1], h2⟩
+  have hget1 : s1.children[i]? = some { state := .running 0 (.signaled sig) } := by
+    simp [s1, set_get hc]
+  obtain ⟨s2, hstep⟩ : ∃ s2, childStep s1 i = some s2 := by
+    unfold childStep; rw [hget1]; exact ⟨_, rfl⟩
+  have hs2 : Inv s2 := inv_child i hs1 hstep
+  have hchild2 : s2.children[i]? = some { state := .halted (.signaled sig), changed := true } := by
+    unfold childStep at hstep
+    rw [hget1] at hstep
+    simp only [Option.some.injEq] at hstep
+    subst hstep
+    have : ∀ t : Sys, (raiseSigchld t).children = t.children := by
+      intro t; unfold raiseSigchld; split <;> rfl
+    rw [this]; simp [set_get hget1]
+  have hpend : s.disp = .catch → s2.pending = true := by
+    intro hd
+    unfold childStep at hstep
+    rw [hget1] at hstep
+    simp only [Option.some.injEq] at hstep
+    subst hstep
+    unfold raiseSigchld
+    have : s1.disp = .catch := hd
+    simp [this]
+  refine ⟨hs1, s2, hstep, hchild2, hpend, hs2, wait_progress_inv hs2, ?_⟩
+  intro t ht r hm
+  obtain ⟨c, h1, h2⟩ := (inv_steps ht hs2).logged i r hm
+  have hfin := fin_steps ht
+  have e1 : (t.children.map (·.state.fin))[i]? = some r := by
+    simp [List.getElem?_map, h1, h2, PState.fin]
+  have e2 : (s2.children.map (·.state.fin))[i]? = some (.signaled sig) := by
+    simp [List.getElem?_map, hchild2, PState.fin]
+  rw [hfin, e2] at e1
+  simp at e1; subst e1
+  exact ⟨rfl, rfl⟩
+
+/-- non-vacuity: the parent blocked in `wait` for child 0, which has a blocked fatal signal pending -/
+example :
+    let s := run 3 [0, 0, 0] (init [(2, .exited 3)] [.wait (.pid 0)])
+    Inv s ∧ s.pc = .await ∧ s.children[0]? = some { state := .running 2 (.exited 3), changed := false } :=
+  ⟨reachable_inv (run_steps _ _ _), by decide, by decide⟩
+
 /-! ### stages of a pipeline that block on I/O with each other (`Pipeline.lean`)
 
   The theorems above take "every child ends after finitely many steps" as given.  For the stages of a
